@@ -1146,7 +1146,7 @@ func (sc *serverConn) handleFrame(strm *Stream, fr *FrameHeader) error {
 			return NewGoAwayError(ProtocolError, "window increment of 0")
 		}
 
-		if atomic.AddInt64(&strm.window, win) >= 1<<31-1 {
+		if atomic.AddInt64(&strm.window, win) > 1<<31-1 {
 			return NewResetStreamError(FlowControlError, "window is above limits")
 		}
 	default:
